@@ -56,13 +56,16 @@ def register(R):
     R.define("is_flr", ["v"], "is_shape_(v, 'Flr')")
     R.contract(TD + "failure_content", assumed=True, params={"failure": "any"}, pure=True, returns="Content", ensures=["not allocated(ret)"])
     R.shape("Dfr", addCallbacks=dict(model=ADD_CALLBACKS), addErrback=dict(model=ADD_ERRBACK))
-    R.fields_of("Dfr", dstate="int", dresult="any", dpending="int")
+    R.fields_of("Dfr", dstate="int", dresult="any", dpending="int", called="bool")
     R.type_aliases["Failure"] = "Flr"
     R.shape("Flr", raiseException=dict(model=RAISE_EXCEPTION),
             getTracebackObject=dict(signature="", pure=True, noalloc=True, returns="any"))
     R.fields_of("Flr", value="exc", type="any")
     # well-formed Deferred: a state in {0,1,2}; failed exactly when the result is a Failure
-    R.define("dfr_ok", ["d"], "0 <= d.dstate and d.dstate <= 2 and (d.dstate == 2) == (d.dstate != 0 and is_failure(d.dresult)) and d.dpending >= 0")
+    # `called` is Twisted's public flag; a Deferred with a result has been called, but a called one may have NO current result:
+    # it can be waiting on a Deferred that one of its callbacks returned (state 0 with called == True)
+    R.define("dfr_ok", ["d"], "0 <= d.dstate and d.dstate <= 2 and (d.dstate == 2) == (d.dstate != 0 and is_failure(d.dresult)) and d.dpending >= 0 and "
+                              "implies(d.dstate != 0, d.called)")
     # the three continuations of on_deferred_result: abstract callables, one ghost event per call
     R.function("cont_result", ["val", "val", "val"], "val")
     R.shape("Cont2", __call__=dict(signature="deferred, value", event=True, returns="any", value="cont_result(self, deferred, value)"))
@@ -131,13 +134,13 @@ def maybeDeferred(f, *args, **kwargs):
     try:
         result = f(*args, **kwargs)
     except BaseException as e:
-        return ghost_new('Dfr', dstate=2, dresult=ghost_new('Flr', value=e, type=type(e)), dpending=0)
+        return ghost_new('Dfr', dstate=2, dresult=ghost_new('Flr', value=e, type=type(e)), dpending=0, called=True)
     if is_shape(result, 'Dfr'):
         return astype(result, 'Dfr')
     elif is_shape(result, 'Flr'):
-        return ghost_new('Dfr', dstate=2, dresult=result, dpending=0)
+        return ghost_new('Dfr', dstate=2, dresult=result, dpending=0, called=True)
     else:
-        return ghost_new('Dfr', dstate=1, dresult=result, dpending=0)
+        return ghost_new('Dfr', dstate=1, dresult=result, dpending=0, called=True)
 '''
 
 
